@@ -37,6 +37,21 @@ def attributes(fb, fn, sw, recurse_rx, extra_fns=()):
     res = {}
     for v, region in regs.items():
         bodies = [(fn, region)] + [(c, set(range(len(c.blocks)))) for c in region_closures(fb, fn, region)]
+        # private helpers of the same file that the arm calls (an extracted `push_field_line`) are part of the arm
+        seen_h = set()
+        for _ in range(2):
+            for g, reg in list(bodies):
+                for b in reg:
+                    t = g.blocks[b].term
+                    if t.op != "call" or t.callee not in fb.fns:
+                        continue
+                    h = fb.fns[t.callee]
+                    if h.id in seen_h or h is fn or h.j.get("vis") == "pub" or h.file != fn.file or re.search(recurse_rx, h.id):
+                        continue
+                    seen_h.add(h.id)
+                    bodies.append((h, set(range(len(h.blocks)))))
+                    for c in fb.closures_of(h):
+                        bodies.append((c, set(range(len(c.blocks)))))
         emits = False
         recurses = False
         fields = set()
